@@ -1682,6 +1682,7 @@ def run(ctx):
             if m is None or not close_lists(m, got):
                 ctx.disagree('C17 reint read', {'case': case, 'model': resp, 'impl': got})
                 break
+            ctx.count('reint:readouts-compared-with-model-wread')
     for case, base, cmps in pol:
         for idx, got in cmps:
             ctx.traces_validated += 1
